@@ -236,3 +236,26 @@ def check_argument_names(run, A, module_prefixes, rule='R-ARGNAME'):
                                   construct=f'{rule}::{fn.qual}::{cal.qual}::{p}<-{v}')
     run.count('variable-to-parameter bindings examined', n)
     return n
+
+
+def check_axisless_squeeze(run, A, module_prefixes, rule='R-ELL'):
+    """np.squeeze names the axis it removes: without an axis every singleton axis goes - also a batch / class / frequency axis that
+    happens to have length one, after which `...` subscripts and einsum letters bind to the wrong axes (all squeezes of the
+    reference tree name their axis)"""
+    from .walk import is_call_to, call_arg
+    n = 0
+    for fn in A.prog.all_funcs():
+        if not any(fn.mod.name == p.rstrip('.') or fn.mod.name.startswith(p) for p in module_prefixes):
+            continue
+        g = A.graphs.get(fn)
+        for e in g.events:
+            if e.kind != 'call' or not is_call_to(e.term, 'numpy.squeeze'):
+                continue
+            n += 1
+            ax = call_arg(e.term, 1, 'axis')
+            none = ax is None or (ax.op == 'const' and ax.args[0] is None)
+            run.check(not none, rule, f'{fn.qual.split("::")[1]}: squeeze names its axis', fn.loc(e.term.node), '',
+                      f'`{norm_stmt(e.term.node)[:90]}` removes every axis of length one: with a single constraint / source / bin the layout the following code relies on is gone',
+                      construct=f'{rule}::{fn.qual}::axisless-squeeze')
+    run.count('squeeze calls examined', n)
+    return n
